@@ -77,6 +77,7 @@ type ExploreOpts struct {
 	Workers   int
 	MaxPaths  int
 	Deadline  time.Time
+	StopAfter int // stop exploring once this many findings are recorded (seeded-defect evaluation only)
 	Budget    int // per-path instruction budget
 	Tier      string
 	TimeoutMs int
@@ -465,6 +466,10 @@ func (w *World) Explore(name string, opts ExploreOpts) *HarnessReport {
 					tr = append(tr, d.Pick)
 				}
 				rep.Findings = append(rep.Findings, Finding{Harness: name, Kind: ev.Kind, Msg: ev.Msg, Where: ev.Where, Stack: ev.Stack, Draws: in.CexValues(model), Trace: tr, Notes: res.Notes})
+			}
+			if opts.StopAfter > 0 && len(rep.Findings) >= opts.StopAfter && (qlen > 0 || active > 0) {
+				rep.Incomplete = true
+				stop = true
 			}
 			if opts.MaxPaths > 0 && rep.Paths >= opts.MaxPaths && (qlen > 0 || active > 0) {
 				rep.Incomplete = true
